@@ -105,6 +105,18 @@ func TestDrv_C05(t *testing.T) {
 				return inner(t)
 			}
 		}
+		if ci%4 == 0 && c.workers >= 2 {
+			// a request timeout (40 ms) and a targeter one of whose calls takes longer than that and then succeeds (a lazily read
+			// list stalling): the hit keeps the instant at which it drew its sequence number
+			inner, calls, slowAt := tgt, new(int64), int64(per/4+1)
+			tgt = func(t *vegeta.Target) error {
+				if atomic.AddInt64(calls, 1) == slowAt {
+					time.Sleep(150 * time.Millisecond)
+				}
+				return inner(t)
+			}
+			atk = vegeta.NewAttacker(append(opts, vegeta.Timeout(40*time.Millisecond))...)
+		}
 		rt.start = time.Now()
 		var got []*vegeta.Result
 		pacer := vegeta.ConstantPacer{Freq: c.rate, Per: time.Second}
